@@ -508,3 +508,6 @@ def run(ctx):
     ctx.check(all(pol_l.get((n_, True)) == {True} and pol_l.get((n_, False)) == {False} for n_ in ("title", "xlabel", "ylabel")), "C20.f",
               "_add_labels:applied-iff-present", "each of title / xlabel / ylabel is set exactly when there is one",
               f"label setters per decision: { {str(k): sorted(v) for k, v in pol_l.items()} }", al.where)
+
+    # shared with C16.c: the per-axis / mesh forms of edges, widths and centres agree (map cells are drawn from them)
+    ctx.borrow("C16", ("HistogramND.get_bin_", "ObjectWithBinning.get_bin_"), "C20.b", floor=3)
